@@ -120,6 +120,10 @@ def impl_writer(case):
         def get(self, block=True, timeout=None):
             if not block and not self.items:
                 raise queue_mod.Empty
+            if timeout is not None and not self.items:
+                # a timed wait on an empty queue can expire (nothing bounds how long the producers stay away)
+                self.sched.log("get-timeout", "-")
+                raise queue_mod.Empty
             self.sched.block_until(lambda: not self.items)
             item = self.items.pop(0)
             self.sched.log("get", desc(item))
